@@ -183,6 +183,8 @@ static void apply(const JV& m, mf::File& f, int n, std::vector<unsigned char>* b
 		long d = m["dim"].integer(), j = m["idx"].integer(); mf::HDU* h = hdu(1 + d); if (!h || h->data.empty()) return; if (j >= (long)h->data.size()) j = (long)h->data.size() - 1;
 		const std::string& c = m["cls"].str();
 		if (c == "nan") h->data[j] = 0x7ff8000000000000ull; else if (c == "inf") h->data[j] = 0x7ff0000000000000ull; else if (c == "-inf") h->data[j] = 0xfff0000000000000ull;
+		else if (c == "flat-support") { TableSpec b = base_spec(n); size_t o = b.order[d], na = b.knots[d].size() - o - 1; for (size_t q = o; q <= na && q < h->data.size(); q++) h->data[q] = h->data[o]; }
+		else if (c == "all-equal") { for (auto& v : h->data) v = h->data[0]; }
 		else if (c == "descending") { if (j + 1 < (long)h->data.size()) std::swap(h->data[j], h->data[j + 1]); else if (j > 0) std::swap(h->data[j], h->data[j - 1]); }
 		else if (j + 1 < (long)h->data.size()) h->data[j + 1] = h->data[j];
 	} else if (k == "foreign") {
@@ -248,6 +250,13 @@ static int damaged_mode(const char* cases, uint64_t seed, const char* outp) {
 					if (t->searchcenters(x.data(), cen.data())) { sink = sink + t->ndsplineeval(x.data(), cen.data(), 0) + t->ndsplineeval(x.data(), cen.data(), 1); try { t->ndsplineeval_gradient(x.data(), cen.data(), g.data()); } catch (std::runtime_error&) {} }   // refused above 7 dimensions
 					sink = sink + (*t)(x.data());
 				}
+				// ... and on every knot (all dimensions on their j-th knot, the last one when a dimension has fewer)
+				{ uint64_t maxnk = 0; for (uint32_t d = 0; d < nd; d++) maxnk = std::max<uint64_t>(maxnk, t->get_nknots(d));
+				  for (uint64_t jk = 0; jk < maxnk && jk < 64; jk++) {
+					for (uint32_t d = 0; d < nd; d++) x[d] = t->get_knot(d, std::min<uint64_t>(jk, t->get_nknots(d) - 1));
+					if (t->searchcenters(x.data(), cen.data())) { sink = sink + t->ndsplineeval(x.data(), cen.data(), 0) + t->ndsplineeval(x.data(), cen.data(), 1); try { t->ndsplineeval_gradient(x.data(), cen.data(), g.data()); } catch (std::runtime_error&) {} }
+					sink = sink + (*t)(x.data());
+				  } }
 				{ Table o2; std::vector<unsigned char> good = mf::build(layout(base_spec(1), {})); o2.read_fits_mem(good.data(), good.size()); sink = sink + (*t == o2) + (*t == *t); }
 				{ auto b = t->write_fits_mem(); free(b.first); }
 				if (how < 2) delete t; else splinetable_free(&ct);
